@@ -14,6 +14,8 @@ construct outside this grammar raises :class:`Unknown`.  User data never enters:
 this to code whose operands are sizes, versions, levels and mask numbers.
 """
 import ast
+import collections
+import operator
 
 from .ev import ev, Sym, FuncRef, _bind, PyRaise, RepoExc, exc_issub, Scope, GenList
 from .src import Unknown
@@ -164,8 +166,17 @@ class Interp:
                 self.assign(tgt, val, env)
         elif t is ast.AugAssign:
             cur = ev(_as_load(st.target), env)
-            val = ev(ast.BinOp(left=ast.Constant(cur) if _is_const(cur) else _Box(cur), op=st.op,
-                               right=_Box(ev(st.value, env))), env)
+            rhs = ev(st.value, env)
+            inplace = {ast.Add: operator.iadd, ast.BitOr: operator.ior, ast.BitAnd: operator.iand, ast.Sub: operator.isub, ast.BitXor: operator.ixor,
+                       ast.Mult: operator.imul}.get(type(st.op))
+            if inplace is not None and type(cur) in (list, bytearray, set, dict, collections.deque, GenList) and not isinstance(rhs, Sym):
+                # a mutable container is changed in place (visible through every other name bound to it), as Python does
+                try:
+                    val = inplace(cur, list(rhs) if type(cur) in (list, GenList) and hasattr(rhs, '__next__') else rhs)
+                except TypeError as ex:
+                    raise Raised(st, TypeError, str(ex))
+            else:
+                val = ev(ast.BinOp(left=ast.Constant(cur) if _is_const(cur) else _Box(cur), op=st.op, right=_Box(rhs)), env)
             self.assign(st.target, val, env)
         elif t is ast.If:
             c = ev(st.test, env)
